@@ -26,6 +26,7 @@ RULE = (
     "or absent header attribute, no exception, no fabricated leaf, every other leaf as written); "
     "(b),(c) metamorphic: tree identical to the base tree / difference confined to the field's "
     "leaves. Non-trivial: the varied region is non-empty and the base content differed."
+    " Complex entries are additionally blanked one numeric column at a time (that half must be NaN; the written half as written or NaN)."
 )
 ASSUMPTIONS = [
     "which fields are nullable is stated in vf/ceosgen/product.py (counts, lengths, code/flag columns and date-time texts are required)",
